@@ -1189,23 +1189,26 @@ impl G<'_> {
         if b == -100 {
             b = 0;
         }
-        let bound = |p: i64, g: &mut Self| -> FrameBound {
+        let bound = |p: i64, g: &mut Self, is_start: bool| -> FrameBound {
             match p {
                 -100 => FrameBound::UnboundedPreceding,
                 100 => FrameBound::UnboundedFollowing,
                 0 => {
+                    // the engine orders bounds as `0 PRECEDING < CURRENT ROW < 0 FOLLOWING`
                     if g.t.chance(70) {
                         FrameBound::CurrentRow
-                    } else {
+                    } else if is_start {
                         FrameBound::Preceding(Value::Int(0))
+                    } else {
+                        FrameBound::Following(Value::Int(0))
                     }
                 }
                 p if p < 0 => FrameBound::Preceding(Value::Int(-p)),
                 p => FrameBound::Following(Value::Int(p)),
             }
         };
-        let start = bound(a, self);
-        let end = bound(b, self);
+        let start = bound(a, self, true);
+        let end = bound(b, self, false);
         Frame { units, start, end }
     }
 
